@@ -4,6 +4,8 @@ Decides that the sibling computations of "covered" consult the same data in a
 type-correct way with the same exclusion arguments, that every zero test on a
 branch distance is an equality with 0.0, that divisions are guarded, and that
 every value written to a fitness / coverage cache is range-asserted first.
+C10.mio-covered interprets MIOArchive.update over a grid of fitness values (incl. subnormal and sub-epsilon ones):
+the covering heuristic value 1.0 is handed to the population exactly for a fitness of zero.
 Numerical equality of fitness == 0 <=> covered for arbitrary traces is not decided.
 """
 
@@ -107,6 +109,8 @@ def check(ctx) -> None:
     ctx.rule("C10.zero", "every comparison of a branch-distance value decides `covered` by equality with 0.0 (==, math.isclose(x, 0.0) or (p, 0.0) in items())", floor=5)
     ctx.rule("C10.zero-iff", "ABSINT: compute_branch_distance_fitness == 0 <=> compute_branch_distance_fitness_is_covered, over representative traces and exclusion sets", floor=20)
     _zero_iff(ctx, repo)
+    ctx.rule("C10.mio-covered", "ABSINT: MIOArchive.update hands its population the covering heuristic value 1.0 exactly for a fitness of zero (grid incl. subnormal and sub-epsilon fitness values), always within [0, 1]", floor=10)
+    _mio_covered(ctx, repo)
     ctx.rule("C10.div", "every division in the metric functions has a denominator that is a non-zero constant, `c + x` with c > 0 and x guarded non-negative, or a name tested == 0 on the dominating edge", floor=3)
     ctx.rule("C10.range", "GUARD-DOM: every write of a computed value into a fitness / coverage cache is dominated by the range assertion on that value; normalise rejects negatives and maps inf to 1.0", floor=4)
 
@@ -361,3 +365,42 @@ def _zero_iff(ctx, repo) -> None:
             ctx.fail("C10.zero-iff", cov, f"{tag}: raises {exc.name} ({exc.detail[:50]})", stmt=tag)
             continue
         ctx.check("C10.zero-iff", cov, (f == 0.0) == bool(c), f"{tag}: fitness = {f!r} but the covered verdict is {c!r}: the search treats a chromosome with fitness zero as not covered (or the other way round)", what=f"{tag}: fitness {f!r}, covered {c!r}", stmt=tag)
+
+
+def _mio_covered(ctx, repo) -> None:
+    """MIOArchive.update, interpreted over a grid of fitness values: the heuristic value handed to the population is 1.0
+    (the value that marks the target covered) exactly for a fitness of zero, and lies in [0, 1]."""
+    from sa.engine import peval
+
+    AR = "pynguin.ga.algorithms.archive"
+    fn = repo.try_func(AR, "MIOArchive.update")
+    if fn is None:
+        raise AnalysisError("anchor vanished: MIOArchive.update")
+    ctx.analysed(fn)
+    mod = repo.module(AR)
+    for fitness in (0.0, 5e-324, 5.55e-17, 2.2e-16, 1e-9, 0.5, 1.0, 7.0, 1e308, float("inf")):
+        tag = f"[mio] fitness {fitness!r}"
+        got = []
+        pop = peval.Obj("population", fields={"is_covered": False})
+        pop.methods["add_solution"] = lambda h, sol, got=got: (got.append(h), True)[1]
+        result = peval.Obj("result", fields={"timeout": False})
+        result.methods["has_test_exceptions"] = lambda: False
+        clone = peval.Obj("clone")
+        clone.methods["get_fitness_for"] = lambda t, fitness=fitness: fitness
+        clone.methods["get_last_execution_result"] = lambda result=result: result
+        sol = peval.Obj("solution")
+        sol.methods["clone"] = lambda clone=clone: clone
+        selfobj = peval.Obj("MIOArchive", fields={"_archive": {"target": pop}})
+        selfobj.methods["_on_target_covered"] = lambda t: None
+        it = peval.Interp(resolver=peval.repo_resolver(repo), max_steps=20000)
+        try:
+            it.run_function(fn, [selfobj, [sol]], {}, mod)
+        except peval.Undecided as exc:
+            ctx.undecide("C10.mio-covered", fn, f"{tag}: {exc}")
+            continue
+        except peval.Raises as exc:
+            ctx.fail("C10.mio-covered", fn, f"{tag}: raises {exc.name} {exc.detail[:60]}", stmt=tag)
+            continue
+        h = got[0] if got else None
+        ok = isinstance(h, float) and 0.0 <= h <= 1.0 and ((h == 1.0) == (fitness == 0.0))
+        ctx.check("C10.mio-covered", fn, ok, f"{tag}: the population receives the heuristic value {h!r}: " + ("the target counts as covered although the fitness is not zero (the goal's own is_covered says False) - a tiny distance such as 5.55e-17 for `x == 0.1 + 0.2` vanishes in `1.0 - normalise(f)`" if h == 1.0 else "a fitness of zero does not mark the target covered / value outside [0, 1]"), what=f"{tag}: h = {h!r}", stmt=tag)
